@@ -1146,3 +1146,203 @@ func BadG5apply(r *g5rec, ack g5ack) {
 	r.At = ack.at
 	r.ECN = ack.ecn
 }
+
+// ---- S2 (blocks of one report): the loop over a report's blocks is exhaustive -------------------------------------------------------
+
+type sBlockRR struct {
+	ssrc uint32
+	lost int64
+}
+
+func recordGoodS2blocks(st sStats, blocks []sBlockRR, ssrc uint32) sStats {
+	for _, b := range blocks {
+		if b.ssrc != ssrc {
+			continue
+		}
+		st.Lost = b.lost
+	}
+	return st
+}
+
+func recordBadS2blocks(st sStats, blocks []sBlockRR, ssrc uint32) sStats {
+	for _, b := range blocks {
+		if b.ssrc != ssrc {
+			continue
+		}
+		st.Lost = b.lost
+		break
+	}
+	return st
+}
+
+// ---- P2 (every repair packet is attempted) --------------------------------------------------------------------------------------
+
+type GoodP2loop struct {
+	interceptor.NoOp
+	repair func() []rtp.Packet
+}
+
+func (g *GoodP2loop) BindLocalStream(_ *interceptor.StreamInfo, w interceptor.RTPWriter) interceptor.RTPWriter {
+	return interceptor.RTPWriterFunc(func(h *rtp.Header, p []byte, a interceptor.Attributes) (int, error) {
+		n, err := w.Write(h, p, a)
+		var errs []error
+		if err != nil {
+			errs = append(errs, err)
+		}
+		for _, r := range g.repair() {
+			hdr := r.Header
+			if _, err := w.Write(&hdr, r.Payload, a); err != nil {
+				errs = append(errs, err)
+			}
+		}
+		if len(errs) > 0 {
+			return n, errs[0]
+		}
+		return n, nil
+	})
+}
+
+type BadP2loop struct {
+	interceptor.NoOp
+	repair func() []rtp.Packet
+}
+
+func (g *BadP2loop) BindLocalStream(_ *interceptor.StreamInfo, w interceptor.RTPWriter) interceptor.RTPWriter {
+	return interceptor.RTPWriterFunc(func(h *rtp.Header, p []byte, a interceptor.Attributes) (int, error) {
+		n, err := w.Write(h, p, a)
+		if err != nil {
+			return n, err
+		}
+		for _, r := range g.repair() {
+			hdr := r.Header
+			if _, err := w.Write(&hdr, r.Payload, a); err != nil {
+				return n, err
+			}
+		}
+		return n, nil
+	})
+}
+
+// ---- T9: what goes back into a pool came out of it ---------------------------------------------------------------------------------
+
+type GoodT9pkt struct{ buf *[]byte }
+
+type GoodT9factory struct{ pool sync.Pool }
+
+func (f *GoodT9factory) make(payload []byte) *GoodT9pkt {
+	pk := &GoodT9pkt{}
+	b, _ := f.pool.Get().(*[]byte)
+	pk.buf = b
+	copy(*pk.buf, payload)
+	return pk
+}
+
+func (f *GoodT9factory) release(pk *GoodT9pkt) { f.pool.Put(pk.buf) }
+
+type BadT9pkt struct{ buf *[]byte }
+
+type BadT9factory struct{ pool sync.Pool }
+
+func (f *BadT9factory) make(payload []byte) *BadT9pkt {
+	pk := &BadT9pkt{}
+	if len(payload) > 1460 {
+		own := make([]byte, len(payload))
+		pk.buf = &own
+	} else {
+		b, _ := f.pool.Get().(*[]byte)
+		pk.buf = b
+	}
+	copy(*pk.buf, payload)
+	return pk
+}
+
+func (f *BadT9factory) release(pk *BadT9pkt) { f.pool.Put(pk.buf) }
+
+// ---- Y2: Close passes Close on -----------------------------------------------------------------------------------------------------
+
+type y2pacer struct{ done chan struct{} }
+
+func (p *y2pacer) Close() error { close(p.done); return nil }
+
+type GoodY2owner struct {
+	pacer *y2pacer
+	ctl   *y2pacer
+}
+
+func (o *GoodY2owner) Close() error {
+	if err := o.ctl.Close(); err != nil {
+		return err
+	}
+	return o.pacer.Close()
+}
+
+type BadY2owner struct {
+	pacer *y2pacer
+	owns  bool
+}
+
+func (o *BadY2owner) Close() error {
+	if !o.owns {
+		return nil
+	}
+	return o.pacer.Close()
+}
+
+// ---- X7: an Attributes map belongs to one packet ------------------------------------------------------------------------------------
+
+type GoodX7reader struct{ interceptor.NoOp }
+
+func (g *GoodX7reader) BindRemoteStream(_ *interceptor.StreamInfo, r interceptor.RTPReader) interceptor.RTPReader {
+	return interceptor.RTPReaderFunc(func(b []byte, a interceptor.Attributes) (int, interceptor.Attributes, error) {
+		n, attr, err := r.Read(b, a)
+		if err != nil {
+			return 0, nil, err
+		}
+		if attr == nil {
+			attr = make(interceptor.Attributes)
+		}
+		if _, err := attr.GetRTPHeader(b[:n]); err != nil {
+			return 0, nil, err
+		}
+		return n, attr, nil
+	})
+}
+
+type BadX7reader struct{ interceptor.NoOp }
+
+func (g *BadX7reader) BindRemoteStream(_ *interceptor.StreamInfo, r interceptor.RTPReader) interceptor.RTPReader {
+	scratch := make(interceptor.Attributes)
+	return interceptor.RTPReaderFunc(func(b []byte, a interceptor.Attributes) (int, interceptor.Attributes, error) {
+		n, attr, err := r.Read(b, a)
+		if err != nil {
+			return 0, nil, err
+		}
+		if attr == nil {
+			attr = scratch
+		}
+		if _, err := attr.GetRTPHeader(b[:n]); err != nil {
+			return 0, nil, err
+		}
+		return n, attr, nil
+	})
+}
+
+// ---- N5: a callback that can be taken away is tested before it is called ---------------------------------------------------------------
+
+type GoodN5est struct{ onChange func(int) }
+
+func (e *GoodN5est) OnChange(f func(int)) { e.onChange = f }
+
+func (e *GoodN5est) update(v int) {
+	if e.onChange != nil {
+		go e.onChange(v)
+	}
+}
+
+type BadN5est struct{ onChange func(int) }
+
+func (e *BadN5est) OnChange(f func(int)) { e.onChange = f }
+
+func (e *BadN5est) update(v int) {
+	go e.onChange(v)
+}
